@@ -135,3 +135,16 @@ func (x *Exec) lemmaAxiomOf(fn *ssa.Function, c *Contract) (string, bool) {
 	}
 	return fmt.Sprintf("(assert (forall (%s) (! %s :pattern (%s))))", strings.Join(binder, " "), body, strings.Join(trig, " ")), true
 }
+
+// lemmaAxiomNames lists the lemma functions whose contracts were available as axioms in this run
+// (each is proved by its own obligations in the scope of the property that relies on it).
+func (x *Exec) lemmaAxiomNames() []string {
+	var names []string
+	for n, c := range x.contracts {
+		if c.Trigger != nil && isLemmaUnit(n) {
+			names = append(names, strings.TrimPrefix(n, modPath+"/")+" (requires ==> ensures as an axiom for non-lemma units; proved as a unit of C01)")
+		}
+	}
+	sort.Strings(names)
+	return names
+}
